@@ -30,7 +30,9 @@ class C10(ParamsProp):
     def corpus(self):
         return [dict(c) for c in CLAUSES] + super().corpus()
 
-    def cases(self, tier, seed):
+    families = {"both_flags": 150, "wide_mapping": 40}
+
+    def base_cases(self, tier, seed):
         N = 1500 if tier == "quick" else 40000
         for i in range(N):
             r = Rng(seed, "C10", i)
